@@ -40,6 +40,7 @@ class Part:
         self.violations = []
         self.n_violations = 0
         self.notes = []
+        self.models = {}  # defect model name -> {"count": n, "examples": [violation records]}
 
     def count(self, name, n=1):
         self.counters[name] = self.counters.get(name, 0) + n
@@ -60,6 +61,14 @@ class Part:
         model: name of a defect model that reproduces the observed wrong result exactly
                (used to attribute the record to a recorded class of known findings).
         """
+        if model is not None:
+            # a deviation that a named defect model reproduces exactly: counted per model (the
+            # runner decides whether known_findings.json lists that model; if not, it is a violation)
+            m = self.models.setdefault(model, {"count": 0, "examples": []})
+            m["count"] += 1
+            if len(m["examples"]) < 3:
+                m["examples"].append({"signature": signature, "detail": detail, "snippet": snippet, "model": model})
+            return
         for v in self.violations:
             if v["signature"] == signature:
                 v["count"] = v.get("count", 1) + 1
@@ -88,6 +97,10 @@ class Part:
                 have.add(v["signature"])
         self.n_violations += other.n_violations - dup
         self.notes.extend(other.notes)
+        for name, m in other.models.items():
+            mine = self.models.setdefault(name, {"count": 0, "examples": []})
+            mine["count"] += m["count"]
+            mine["examples"].extend(m["examples"][: 3 - len(mine["examples"])])
         return self
 
 
@@ -182,6 +195,13 @@ def finish(ctx, wall):
         else:
             new.append(v)
     overflow = part.n_violations - len(part.violations)
+    for name, m in sorted(part.models.items()):
+        k = known_by_model.get(name)
+        if k is not None:
+            seen_known.setdefault(k["id"], [k, 0])[1] += m["count"]
+        else:
+            new.extend(m["examples"])
+            overflow += m["count"] - len(m["examples"])
 
     for kid, (k, n) in sorted(seen_known.items()):
         print("KNOWN-FINDING: property=%s %s: %s (%d cases this run)" % (ctx.prop_id, kid, k["what"], n))
